@@ -138,6 +138,34 @@ class Native:
     contexts). The evaluator uses their python protocol (attributes, call, iteration, index, len)."""
 
 
+NATIVE_MODULES = ("antlr4", "uvl", "afmparser")
+
+
+def is_native(v: Any) -> bool:
+    if isinstance(v, Native):
+        return True
+    mod = getattr(type(v), "__module__", "") or ""
+    return mod.split(".")[0] in NATIVE_MODULES
+
+
+class AObjProxy:
+    """Python-side view of an abstract object handed to a library (e.g. an error listener):
+    method calls are evaluated from the analysed source."""
+
+    def __init__(self, it: "Interp", obj: "AObj") -> None:
+        self.__dict__["_it"] = it
+        self.__dict__["_obj"] = obj
+
+    def __getattr__(self, name: str) -> Any:
+        it, obj = self.__dict__["_it"], self.__dict__["_obj"]
+        if name in obj._f:
+            return obj._f[name]
+        m = it.pm.method(it.pm.cls(obj._cls), name) if it.pm.has_cls(obj._cls) else None
+        if m is None:
+            return lambda *a, **k: None        # inherited library behaviour: no-op
+        return lambda *a, **k: it.call(m, [obj] + list(a), k)
+
+
 class ClassRef:
     def __init__(self, ci: ClassInfo) -> None:
         self.ci = ci
@@ -423,7 +451,7 @@ class Interp:
                     raise AbsMutation(f"store into {obj._cls}.{t.attr} ({src(t)})",
                                       loc(fi.unit.path, t) if fi else "")
                 obj._f[t.attr] = v
-            elif isinstance(obj, Native):
+            elif is_native(obj):
                 setattr(obj, t.attr, v)
             else:
                 raise AnalysisError("ABSINT", f"attribute store outside fragment: {src(t)}")
@@ -451,7 +479,7 @@ class Interp:
         return bool(v)
 
     def iterate(self, v: Any) -> Any:
-        if isinstance(v, Native):
+        if is_native(v):
             return list(iter(v))  # type: ignore[call-overload]
         if isinstance(v, (list, tuple, set, frozenset, dict, str, range)) or hasattr(v, "__next__"):
             return v
@@ -642,6 +670,10 @@ class Interp:
             raise AbsRaise(f"TypeError at {src(n)}") from exc
 
     def _eq(self, a: Any, b: Any) -> bool:
+        if isinstance(a, ClassRef) or isinstance(b, ClassRef):
+            na = a.ci.name if isinstance(a, ClassRef) else getattr(a, "__name__", None)
+            nb = b.ci.name if isinstance(b, ClassRef) else getattr(b, "__name__", None)
+            return na is not None and na == nb
         if isinstance(a, OrdInt):
             return a == b
         if isinstance(b, OrdInt):
@@ -732,7 +764,7 @@ class Interp:
 
     def getattr(self, obj: Any, attr: str, n: ast.AST, fi: Optional[FuncInfo]) -> Any:
         where = loc(fi.unit.path, n) if fi else ""
-        if isinstance(obj, Native):
+        if is_native(obj):
             try:
                 return getattr(obj, attr)
             except AttributeError as exc:
@@ -907,8 +939,9 @@ class Interp:
                                 where)
         if callable(f) and not isinstance(f, (AObj, ClassRef, FuncRef, BoundMethod, Lambda, ModuleRef,
                                               EnumVal, SuperProxy)):
+            nargs = [AObjProxy(self, a) if isinstance(a, AObj) else a for a in args]
             try:
-                return f(*args, **kwargs)
+                return f(*nargs, **kwargs)
             except (IndexError, KeyError) as exc:
                 raise AbsRaise(f"{type(exc).__name__} at {src(n)}", where) from exc
         if isinstance(f, ModuleRef):
@@ -922,7 +955,7 @@ class Interp:
                 where: str) -> Any:
         if name == "len":
             v = args[0]
-            if isinstance(v, Native):
+            if is_native(v):
                 return len(v)  # type: ignore[arg-type]
             if isinstance(v, AObj) and "_len" in v._f:
                 return v._f["_len"]
@@ -943,8 +976,9 @@ class Interp:
                             return True
                         return True
                 elif isinstance(tt, ClassRef):
-                    if isinstance(v, Native):
-                        if tt.ci.name in getattr(v, "_isa", ()):
+                    if is_native(v):
+                        if tt.ci.name in getattr(v, "_isa", ()) or \
+                                tt.ci.name in [c.__name__ for c in type(v).__mro__]:
                             return True
                         continue
                     if isinstance(v, AObj):
